@@ -242,6 +242,9 @@ def execute(stim):
             cb = edzed.FuncBlock('cb', func=fn).connect('b1')
             for k in range(stim.get('chain') or 0):
                 cb = edzed.FuncBlock(f'cb{k}', func=lambda x: x).connect(cb)
+            # a combinational block fed by constants only: it has a valid
+            # output after the start like every other block
+            edzed.FuncBlock('konst', func=lambda a, b: a + b).connect(edzed.Const(6), edzed.Const(7))
             if stim['cleanup']:
                 edzed.Repeat('rep', dest='b1', etype='nosuch', interval=1)     # a block with async clean-up
             if stim.get('late'):
@@ -268,7 +271,7 @@ def execute(stim):
             x = (loop.time() - t0) / TICK
             lines.append({'ev': 'wait', 'ok': ok, 't': round(x) if abs(x - round(x)) < 1e-6 else 10 ** 6,
                           'outs': [tag(blocks[b].output) for b in range(1, n + 1)],
-                          'ready': bool(circuit.is_ready()), 'cb': 0 if cb.output is edzed.UNDEF else 1,
+                          'ready': bool(circuit.is_ready()), 'cb': 0 if any(c.output is edzed.UNDEF for c in circuit.getblocks(edzed.CBlock)) else 1,
                           'err': circuit.error is not None})
             if stim.get('late'):
                 stopper = asyncio.create_task(circuit.shutdown())
